@@ -23,6 +23,7 @@ var profileOf = map[string]string{"C06": "pure", "C10": "pure", "C12": "pure", "
 var boundedOf = map[string][2]string{
 	"C01": {"match", "^TestBoundedC01Fits$"},
 	"C02": {"match", "^TestBoundedC02Embeddings$"},
+	"C14": {"sio", "^TestBoundedC14Requeue$"},
 }
 
 type knownFinding struct {
@@ -415,14 +416,14 @@ func cmdCheck(args []string) int {
 	}
 	if boundedStats != nil {
 		cov["bounded_stand_in"] = boundedStats
-		cov["bounded_note"] = "BOUNDED: the real match.Match was run on every input of the space described in bounded_stand_in.bound and compared with an executable specification written from the property text; this part is exhaustive within that bound only and is not counted in obligations/discharged"
+		cov["bounded_note"] = "BOUNDED: the real function (match.Match for C01/C02, sio.(*Crew).ProcessMsg for C14) was run on every input of the space described in bounded_stand_in.bound and compared with an executable specification written from the property text; this part is exhaustive within that bound only and is not counted in obligations/discharged"
 		if ev, ok := boundedStats["evaluations"].(float64); ok {
 			cov["evaluations"] = int(ev)
 		}
 		if nt, ok := boundedStats["distinct_nontrivial"].(float64); ok {
 			cov["distinct_nontrivial"] = int(nt)
 		}
-		cov["rule"] = "bounded part: exhaustive enumeration of (pattern, message[, initial bindings]) over the stated alphabet; non-trivial = distinct (pattern, returned binding set) pairs (C01) / pairs with at least one embedding (C02)"
+		cov["rule"] = "bounded part: exhaustive enumeration over the stated space - (pattern, message[, initial bindings]) triples for C01/C02 (non-trivial = distinct (pattern, returned binding set) pairs / pairs with at least one embedding), emission tables and submissions for C14 (every configuration counts)"
 		cov["exhaustive"] = true
 		if nObl == 0 {
 			level = "exploration"
